@@ -1094,6 +1094,18 @@ func (c06) Exec(line string) (string, []Fail) {
 	if strings.HasPrefix(line, "stage ") {
 		return c06Stage(line)
 	}
+	if strings.HasPrefix(line, "dist ") {
+		return c06Dist(line)
+	}
+	if strings.HasPrefix(line, "chunk ") {
+		return c06Chunk(line)
+	}
+	if strings.HasPrefix(line, "pipe ") {
+		return c06Pipe(line)
+	}
+	if strings.HasPrefix(line, "big ") {
+		return c06Big(line)
+	}
 	c, ok := c06Parse(line)
 	if !ok {
 		caseTrivial = true
@@ -1522,6 +1534,7 @@ func (c06) Gen(rng *rand.Rand, tier string, emit func(string)) {
 	for _, l := range corpus {
 		emit(l)
 	}
+	c06GenChunk(rng, tier, emit)
 	// a classifier that carries something over the per-batch Reset: sequence class X (values s2, s1) followed, in
 	// the same chain, by class Y whose records arrive as s1, s2, s1 — and the orders around it
 	{
